@@ -87,3 +87,31 @@ pub fn yield_point(site: &'static str) {
         f(site)
     }
 }
+
+thread_local! {
+    static SYM_VALUES: std::cell::RefCell<Option<Vec<(NodeId, rten_shape_inference::SymTensor)>>> =
+        const { std::cell::RefCell::new(None) };
+}
+
+/// Start (or stop) capturing the symbolic values computed by the next call to
+/// [`infer_shapes`] on this thread.
+pub fn capture_sym_values(enable: bool) {
+    SYM_VALUES.with(|v| *v.borrow_mut() = if enable { Some(Vec::new()) } else { None });
+}
+
+/// Take the symbolic values captured since [`capture_sym_values`] was enabled.
+pub fn take_sym_values() -> Vec<(NodeId, rten_shape_inference::SymTensor)> {
+    SYM_VALUES.with(|v| v.borrow_mut().as_mut().map(std::mem::take).unwrap_or_default())
+}
+
+/// Called by the shape inference driver with the final symbolic value of each
+/// operator output.
+pub(crate) fn record_sym_values<'a>(
+    values: impl Iterator<Item = (&'a NodeId, &'a rten_shape_inference::SymTensor)>,
+) {
+    SYM_VALUES.with(|v| {
+        if let Some(out) = v.borrow_mut().as_mut() {
+            out.extend(values.map(|(id, val)| (*id, val.clone())));
+        }
+    });
+}
